@@ -3,7 +3,7 @@ import numpy as np
 
 from .. import graphs as G
 from .. import oracles as O
-from .common import call, close, dtype_variants_agree
+from .common import call, close, dtype_variants_agree, layout_variants_agree
 
 PROP = 'C03'
 ANCHORS = ['distance_bin', 'distance_wei', 'distance_wei_floyd', 'breadthdist', 'reachdist', 'charpath',
@@ -108,6 +108,9 @@ def check_matrix(REC, bct, A, L, scheme, directed, big=False):
         return True
 
     REC.tag(PROP, 'exec')
+    if 3 <= n <= 9 and scheme in ('int', 'real'):
+        for fname in ('distance_wei', 'distance_wei_floyd', 'rout_efficiency', 'distance_bin', 'reachdist', 'breadthdist', 'efficiency_wei'):
+            layout_variants_agree(REC, PROP, fname, getattr(bct, fname), L)
     # ---- distance_wei (any scheme; lengths)
     ok, res = call(REC, PROP, 'distance_wei', bct.distance_wei, L)
     if ok:
